@@ -101,8 +101,7 @@ type rangeScn struct {
 	fconn      *sql.Conn
 	dead       bool // a handler call did not return
 	forceOpt   int  // >= 0: the request variant to send (replay); -1: chosen by the scenario's generator
-	lastOpt    int
-	forceLease int // > 0: the lease time to configure at the next restart (replay)
+	forceLease int  // > 0: the lease time to configure at the next restart (replay)
 }
 
 func (s *rangeScn) mac(id int) net.HardwareAddr {
@@ -270,7 +269,12 @@ func (s *rangeScn) callHandler(h handler.Handler4, mt dhcpv4.MessageType, mac ne
 	if variant < 0 {
 		variant = s.r.Intn(8)
 	}
-	s.lastOpt = variant
+	e := s.callHandlerV(h, mt, mac, hostClass, variant)
+	e["ropt"] = variant
+	return e
+}
+
+func (s *rangeScn) callHandlerV(h handler.Handler4, mt dhcpv4.MessageType, mac net.HardwareAddr, hostClass string, variant int) Ev {
 	req, resp, err := buildReq4v(mt, mac, hostClass, s.r, variant)
 	if err != nil {
 		return Ev{"res": "builderr", "idx": -1, "lease": -1, "stop": false, "msg": err.Error()}
@@ -343,7 +347,6 @@ func (s *rangeScn) req(mt dhcpv4.MessageType, id int, hostClass string) {
 	}
 	e["ev"], e["type"], e["mac"], e["maclen"], e["host"], e["t0"], e["t1"] = "req", mt.String(), id, len(mac), hostClass, t0, t1
 	e["machex"] = mac.String()
-	e["ropt"] = s.lastOpt
 	s.t.Emit(e)
 }
 
@@ -574,6 +577,7 @@ func runRangeConc(t *Trace, dir string, seed int64, rounds int, nsetup *int) {
 		r := rand.New(rand.NewSource(seed*977 + int64(round)))
 		g := geoms[round%len(geoms)]
 		s := newRangeScn(t, dir, 100000+round, g, 60, r, false, nsetup)
+		s.forceOpt = 7 // plain requests: the generator of a scenario is not shared between goroutines
 		if !s.begin() {
 			continue
 		}
@@ -637,6 +641,7 @@ func runRangeProbe(t *Trace, dir string, nsetup *int) {
 	for _, same := range []bool{true, false} {
 		r := rand.New(rand.NewSource(5))
 		s := newRangeScn(t, dir, 200000, mkRangeGeom("10.0.0.10", 4), 60, r, false, nsetup)
+		s.forceOpt = 7
 		if !s.begin() {
 			continue
 		}
